@@ -7,10 +7,17 @@ import (
 	"encoding/hex"
 	"flag"
 	"fmt"
+	"io"
+	stdlog "log"
 	"math/rand"
 	"os"
 	"strings"
 )
+
+func init() {
+	// the library logs through the standard logger; keep stderr for the harness's own diagnostics
+	stdlog.SetOutput(io.Discard)
+}
 
 // Opts are the flags common to all generators.
 type Opts struct {
